@@ -183,6 +183,39 @@ def check_siblings(chk, prog):
                 d_why = f"dirty id recorded at line {c.line} without any id-unchanged (equality) test"
         e = any(c.p == SUM + "::note_change" for g, c in calls)
         key = f"{CE}::{name}"
+        # (f) every re-insertion point of a rebuilt container is followed, within the same loop iteration, by a
+        # dirty-id decision (a conditional dirty-id site): the occupied AND the vacant arm
+        own = prog.region(f) + [h for h in reg if h.name == CE + "::reinsert_incremental" or (h.root or "") == CE + "::reinsert_incremental"]
+        points = []
+        for g in own:
+            for c in g.calls:
+                if c.p == CE + "::insert_owned" or c.p.endswith("::insert_in_slot") or \
+                   (c.d.startswith("core::ops::function::Fn") and len(c.ga) > 1 and "ExecutionState" in c.ga[1] and c.ga[1].count("Value") >= 2):
+                    points.append((g, c))
+        dset = {(g.name, c.bb) for g, c in dsites}
+        miss = []
+        for g, c in points:
+            loops = [(h_, b_) for (h_, b_) in natural_loops(g) if c.bb in b_]
+            hdr, body = (min(loops, key=lambda x: len(x[1])) if loops else (None, set(g.live)))
+            seen = set()
+            stack = [c.bb]
+            found = False
+            while stack:
+                x = stack.pop()
+                if x in seen:
+                    continue
+                seen.add(x)
+                if (g.name, x) in dset and x != c.bb:
+                    found = True
+                    break
+                for sx in g.succ[x]:
+                    if sx in body and sx != hdr:
+                        stack.append(sx)
+            if not found and (g.name, c.bb) not in dset:
+                miss.append(f"{c.p.rsplit('::', 1)[-1]} at line {c.line}")
+        chk.judge(bool(points) and not miss, R, key + ":dirty-after-reinsert", f"{len(points)} re-insertion point(s), each followed by a dirty-id decision in the same iteration",
+                  f"a rebuilt container is re-inserted without a dirty-id decision on that path ({miss}): a same-id container whose contents changed is never refreshed, "
+                  "so semi-naive misses the rows that became matchable", f.loc)
         chk.judge(a, R, key + ":own-id", "rebuilds the container's own id", "variant no longer maps the container's own id through the rebuilder", f.loc)
         chk.judge(b, R, key + ":contents", "rebuilds the container's contents", "variant no longer calls rebuild_contents", f.loc)
         chk.judge(bool(merge) and idx, R, key + ":collision", "merges on collision and re-points to_container / val_index when the id changed",
